@@ -127,7 +127,11 @@ pub struct Verdict {
 /// exact result is representable in `T` and every intermediate of the float formula (documented in
 /// the `Lerp` trait: `from + factor*(to-from)` resp. `from*(1-factor) + to*factor`) is exact in the
 /// factor type, so that no rounding but the final round-to-integer takes place.
-pub fn judge<T: IntT>(cx: &mut Cx, from: T, to: T, k: i32, v: Variant) -> Result<Verdict, Fail> {
+///
+/// `f4_seen`: the known finding F4 has already been observed (and is tolerated) at this point; the
+/// remaining calls of its class at the same point would only unwind through the same overflow again
+/// (unwinding is serialized process-wide), so they are not made.
+pub fn judge<T: IntT>(cx: &mut Cx, from: T, to: T, k: i32, v: Variant, f4_seen: bool) -> Result<Verdict, Fail> {
     let p: u32 = if v.f64_factor { 53 } else { 24 };
     let (a, b) = (from.to_i128(), to.to_i128());
     let clamped = matches!(v.form, Form::CFast | Form::CPrecise);
@@ -143,6 +147,10 @@ pub fn judge<T: IntT>(cx: &mut Cx, from: T, to: T, k: i32, v: Variant) -> Result
         && if fast { repr16(16 * d, p) && repr16(kk * d, p) } else { repr16(a * (16 - kk), p) && repr16(b * kk, p) };
     let f4_class = fast && (d < T::LO || d > T::HI);
     let mut verdict = Verdict { asserted: false, f4_class, f4_hit: false };
+    if f4_class && f4_seen && cx.known(F4) {
+        verdict.f4_hit = true;
+        return Ok(verdict);
+    }
     let t = k as f64 / 16.0;
     match catch(|| T::call(v, from, to, t)) {
         Err(msg) => {
@@ -213,7 +221,7 @@ pub fn sweep8<T: IntT>(idx: u64, grid: &[i32], cx: &mut Cx) -> CaseResult {
     let mut hit = false;
     for f64_factor in [false, true] {
         for v in variants(f64_factor) {
-            let r = judge(cx, from, to, k, v)?;
+            let r = judge(cx, from, to, k, v, hit)?;
             hit |= r.f4_hit;
             if r.f4_class {
                 cx.label("F4-class(fast path, to-from overflows T)");
@@ -251,7 +259,7 @@ fn strat<T: IntT>(t: &mut Tape) -> i128 {
 
 /// Wider integers: stratified endpoints, snapped to values the factor's float type represents exactly.
 pub fn wide<T: IntT>(t: &mut Tape, cx: &mut Cx) -> CaseResult {
-    let mut nontrivial = false;
+    let mut pts: Vec<(bool, i128, i128, i32)> = Vec::new();
     for f64_factor in [false, true] {
         let p = if f64_factor { 53 } else { 24 };
         let a = snap(strat::<T>(t), p);
@@ -269,8 +277,13 @@ pub fn wide<T: IntT>(t: &mut Tape, cx: &mut Cx) -> CaseResult {
             _ => snap(strat::<T>(t), p),
         };
         let k = if t.bool() { t.pick(&CORE) } else { t.int(-16, 32) as i32 };
+        pts.push((f64_factor, a, b, k));
+    }
+    sample!(cx, "{} (f32 factor: from={} to={} factor={}/16) (f64 factor: from={} to={} factor={}/16), 16 forms each", T::NAME, pts[0].1, pts[0].2, pts[0].3, pts[1].1, pts[1].2, pts[1].3);
+    let mut nontrivial = false;
+    for (f64_factor, a, b, k) in pts {
+        let p = if f64_factor { 53 } else { 24 };
         let (from, to) = (T::from_i128(a), T::from_i128(b));
-        sample!(cx, "{} factor type {} from={} to={} factor={}/16", T::NAME, if f64_factor { "f64" } else { "f32" }, a, b, k);
         point_labels(cx, from, to, k);
         if a.unsigned_abs() >= 1u128 << p || b.unsigned_abs() >= 1u128 << p {
             cx.label("endpoint>=2^p(exactly representable)");
@@ -278,7 +291,7 @@ pub fn wide<T: IntT>(t: &mut Tape, cx: &mut Cx) -> CaseResult {
         let mut asserted = 0;
         let mut hit = false;
         for v in variants(f64_factor) {
-            let r = judge(cx, from, to, k, v)?;
+            let r = judge(cx, from, to, k, v, hit)?;
             if r.asserted {
                 asserted += 1;
             }
@@ -312,7 +325,17 @@ pub fn vec_int(t: &mut Tape, cx: &mut Cx) -> CaseResult {
     let f = k as f32 / 16.0;
     // Rgba<u8>, arbitrary lanes (to < from is the F4 class on the fast path)
     let a = [t.u8(), t.u8(), t.u8(), t.u8()];
-    let b = [t.u8(), t.u8(), t.u8(), t.u8()];
+    let mut b = [t.u8(), t.u8(), t.u8(), t.u8()];
+    let mut a = a;
+    if t.bool() {
+        // every lane ascending: outside the F4 class, so the fast forms are judged in every mode
+        for i in 0..4 {
+            if b[i] < a[i] {
+                std::mem::swap(&mut a[i], &mut b[i]);
+            }
+        }
+    }
+    let (a, b) = (a, b);
     let (va, vb) = (Rgba { r: a[0], g: a[1], b: a[2], a: a[3] }, Rgba { r: b[0], g: b[1], b: b[2], a: b[3] });
     sample!(cx, "Rgba<u8> from={:?} to={:?} factor={}/16", a, b, k);
     cx.set_nontrivial(a != b && k != 0 && k != 16);
